@@ -57,13 +57,16 @@ def tmpl{N}() -> None:
     mut {lvd} = {"k": 1}
     {lvd}["k"] = 6
     println({lvd}["k"])
+    {fsv} = 8
+    println(f"{{fsv}}")
 '''
 SAFE = {"Type": "Widget", "field": "amount", "method": "total", "mparam": "extra", "Enum": "Shade", "Variant": "Dark",
-        "mbind": "got", "cparam": "arg", "lvl": "items", "lvo": "gadget", "lvd": "table"}
-TEMPLATE_OUT = ["3", "1", "4", "2", "9", "7", "6"]
+        "mbind": "got", "cparam": "arg", "lvl": "items", "lvo": "gadget", "lvd": "table", "fsv": "shown"}
+TEMPLATE_OUT = ["3", "1", "4", "2", "9", "7", "6", "8"]
 # positions where the name is used bare (no per-case suffix possible): one case per name per position
 # lvl / lvo / lvd: a variable used as the ROOT of an assignment target (list element, field, dict value)
-BARE = ["field", "method", "mparam", "Variant", "mbind", "cparam", "Type", "Enum", "lvl", "lvo", "lvd"]
+# fsv: a variable read inside an f-string hole
+BARE = ["field", "method", "mparam", "Variant", "mbind", "cparam", "Type", "Enum", "lvl", "lvo", "lvd", "fsv"]
 
 
 def template_case(pos, name, k):
